@@ -75,6 +75,9 @@ SUPERSEDED = {
     "C16-i": "superseded: confirmed on hdc-algo 2da843a (tests pass, demo fails); the joint evaluation it prompted exposed the genuine defect D17 in the same line (the dask key of zonal.mean), repaired by 0318712, after which the patch no longer applies; at its own base commit it is caught",
     "C12-g": "superseded: the patch was confirmed on hdc-algo e8a493c (tests pass, demo fails); the non-default dtype arguments it prompted in C12 exposed the genuine defect D16 in the same lines, repaired by 2da843a, after which the patch no longer applies (its failure mode - a lazy result whose computed dtype differs from the declared one - is what the repaired code and the regress files d16_* pin down)",
     "C15-c": "superseded: the patch applied to hdc-algo 26e16c3 (where it was confirmed and caught); after the repair 1d112b8 (float autocorr subtracts the first valid value) it no longer applies, and the failure mode it seeded (float32 products of large values) cannot be re-created on the repaired code because the products are formed from shifted, small values"}
+REBASED = {
+    "C12-a": "the repair of D17 (0318712) rewrote the line this patch changes; patch.diff is the same change (zones raster dropped from the dask key) re-applied by hand to the repaired line, confirmed again with tools/seed_eval.sh (suite passes, demo fails, check catches it); the author's patch against 2de2409 is kept as patch_original.diff",
+    "C12-h": "the repair of D17 (0318712) rewrote the line this patch changes; patch.diff is the same change (in-memory zones raster identified by name/dims/shape/dtype instead of its content) re-applied by hand to the repaired line, confirmed again with tools/seed_eval.sh; the author's patch against e8a493c is kept as patch_original.diff"}
 out_root = "/verif/seeded"
 os.makedirs(out_root, exist_ok=True)
 rows = []
@@ -100,7 +103,10 @@ for root, variants in (("/tmp/seeds", ("a", "b")), ("/tmp/seeds2", ("c", "d")), 
             continue
         dst = os.path.join(out_root, key)
         os.makedirs(dst, exist_ok=True)
-        shutil.copy(sd + "/patch.diff", dst + "/patch.diff")
+        if key in REBASED and os.path.exists(dst + "/patch_original.diff"):
+            pass  # patch.diff is the rebased patch; the author's patch is kept as patch_original.diff
+        else:
+            shutil.copy(sd + "/patch.diff", dst + "/patch.diff")
         shutil.copy(sd + "/demo.py", dst + "/demo.py")
         m = {"id": key, "property": pid, "breaks": meta.get("summary"), "needs_to_manifest": meta.get("needs_to_manifest"),
              "files_changed": meta.get("files_changed"), "author": "independent sub-agent given only the property text and a scratch worktree",
@@ -112,6 +118,8 @@ for root, variants in (("/tmp/seeds", ("a", "b")), ("/tmp/seeds2", ("c", "d")), 
              "caught_by": [l.strip() for l in ev["check_output"] if "sub-check" in l][:3]}
         if key in STRENGTHENED:
             m["strengthening_prompted_by_this_seed"] = STRENGTHENED[key]
+        if key in REBASED:
+            m["rebased"] = REBASED[key]
         if key in SUPERSEDED:
             m["status"] = SUPERSEDED[key]
         json.dump(m, open(dst + "/meta.json", "w"), indent=1)
